@@ -11,9 +11,11 @@ res=""
 ( cd $wt && go build ./... ) >/dev/null 2>&1 && res="$res build=ok" || res="$res build=FAIL"
 ( cd $wt && timeout 300 go test -vet=off -count=1 ./... ) >/dev/null 2>&1 && res="$res suite_with_patch=pass" || res="$res suite_with_patch=FAIL"
 cp $dir/demo_test.go $wt/zz_demo_test.go
-( cd $wt && timeout 300 go test -vet=off -count=1 -run 'Demo' . ) >/dev/null 2>&1 && res="$res demo_with_patch=PASS(bad)" || res="$res demo_with_patch=fails"
+tests=$(grep -o '^func Test[A-Za-z0-9_]*' $dir/demo_test.go | sed 's/func //' | paste -sd'|')
+race=""; grep -q -- "-race" $dir/README.md 2>/dev/null && [ "${prop}" = "C19" ] && race="-race"
+( cd $wt && timeout 300 go test $race -vet=off -count=1 -run "^($tests)\$" . ) >/dev/null 2>&1 && res="$res demo_with_patch=PASS(bad)" || res="$res demo_with_patch=fails"
 ( cd $wt && git checkout -q -- . )
-( cd $wt && timeout 300 go test -vet=off -count=1 -run 'Demo' . ) >/dev/null 2>&1 && res="$res demo_without_patch=passes" || res="$res demo_without_patch=FAILS(bad)"
+( cd $wt && timeout 300 go test $race -vet=off -count=1 -run "^($tests)\$" . ) >/dev/null 2>&1 && res="$res demo_without_patch=passes" || res="$res demo_without_patch=FAILS(bad)"
 git -C /repo worktree remove --force $wt
 echo "CONFIRM:$res"
 cd /verif
